@@ -38,6 +38,12 @@ def main(argv):
             print(f"VIOLATION property={pid} replay={replay}")
             return 1
         return 0
+    if tier == "thorough":
+        import shutil
+
+        d = os.path.join(harness.HERE, ".cache", "smt", pid)
+        shutil.rmtree(d, ignore_errors=True)
+        os.environ["VERIF_DUMP_SMT"] = d
     ctx = harness.Ctx(pid, tier, seed)
     rep = harness.Report(ctx)
     try:
